@@ -57,8 +57,15 @@ ClassOfCode(c) ==
     [] c = -28 -> "InWarmupError" [] OTHER -> "JSONRPCError"
 \* reply kinds: "result", "error-code" (error object with a numeric code), "error-nocode", "error-nondict",
 \* "missing-result", "non-json".  The outcome of a call:
+\* Transport faults are not replies: "send-fault" (the connection refuses or drops the request while it is being
+\* written), "recv-fault" (the request went out, reading the response fails).  The listed property says nothing about
+\* what the caller sees then (the code lets the transport exception through; a proxy that reconnects and retries would
+\* be as good), so the outcome is unconstrained - but every request that was put on the wire, failed or retried,
+\* counts for "request ids strictly increase over the life of a proxy".
+FaultKinds == {"send-fault", "recv-fault"}
 Outcome(kind, code) ==
   CASE kind = "result" -> [k |-> "ret"]
+    [] kind \in FaultKinds -> [k |-> "any"]
     [] kind = "error-code" -> [k |-> "exc", cls |-> ClassOfCode(code)]
     [] OTHER -> [k |-> "exc", cls |-> "JSONRPCError"]
 \* methods whose docstrings promise IndexError for "not found" errors
